@@ -61,6 +61,7 @@ const (
 	LElem
 	LCell
 	LGlobal
+	LTable
 )
 
 // LV: a location of a flat value (transient pointer value).
@@ -240,12 +241,13 @@ func (e *Enc) zeroVal(t types.Type) Val {
 		}
 		return sv
 	case *types.Array:
-		if isAggregate(u.Elem()) {
+		ls, ok := e.arrayLeafSorts(t)
+		if !ok {
 			return nil // unsupported as a register value
 		}
 		av := &AV{T: t}
-		for _, l := range e.Leaves(u.Elem()) {
-			av.L = append(av.L, e.zeroTerm(SArr(e.Idx(), l.Sort)))
+		for _, s := range ls {
+			av.L = append(av.L, e.zeroTerm(s))
 		}
 		return av
 	case *types.Tuple:
@@ -602,4 +604,29 @@ func (e *Enc) convInt(x Term, from, to types.Type) Term {
 	}
 	h := intLit(new(big.Int).Lsh(big.NewInt(1), uint(tw-1)))
 	return app(SInt, "-", app(SInt, "mod", app(SInt, "+", x, h), m), h)
+}
+
+
+// arrayLeafSorts gives the SMT sorts of an array value's leaves: arrays of flat
+// elements are 1-D SMT arrays; small arrays of such arrays are 2-D.
+func (e *Enc) arrayLeafSorts(t types.Type) ([]Sort, bool) {
+	at, ok := t.Underlying().(*types.Array)
+	if !ok {
+		return nil, false
+	}
+	if !isAggregate(at.Elem()) {
+		var out []Sort
+		for _, l := range e.Leaves(at.Elem()) {
+			out = append(out, SArr(e.Idx(), l.Sort))
+		}
+		return out, true
+	}
+	if inner, ok := at.Elem().Underlying().(*types.Array); ok && at.Len() <= 16 && !isAggregate(inner.Elem()) {
+		var out []Sort
+		for _, l := range e.Leaves(inner.Elem()) {
+			out = append(out, SArr(e.Idx(), SArr(e.Idx(), l.Sort)))
+		}
+		return out, true
+	}
+	return nil, false
 }
